@@ -61,7 +61,8 @@ fn real_classify(list: &[String]) -> Result<Vec<RArg>, String> {
             }
             Arg::Value(v) => RArg::Value(v.to_string()),
         });
-        if out.len() > 10_000 {
+        // (an item consumes at least one byte of the raw text or one token: more items than that means it never ends)
+        if out.len() > raw.len() + list.len() + 16 {
             return Err("iterator does not terminate".into());
         }
     }
